@@ -4,6 +4,9 @@ import json, os, subprocess, sys, time
 
 seed, prop = sys.argv[1], sys.argv[2]
 thorough = '--thorough' in sys.argv
+# --repo PATH: a scratch worktree of /repo to patch instead of /repo itself (so that checks other
+# people are running against /repo are not disturbed); the check then runs with VERIF_REPO=PATH.
+REPO = sys.argv[sys.argv.index('--repo') + 1] if '--repo' in sys.argv else '/repo'
 VERIF = os.path.dirname(os.path.dirname(os.path.abspath(__file__)))
 
 
@@ -12,19 +15,19 @@ def sh(cmd, cwd=None, timeout=3000, env=None):
   return p.returncode, (p.stdout + p.stderr)
 
 
-assert sh('git -C /repo status --porcelain')[1].strip() == '', '/repo is dirty'
+assert sh('git -C %s status --porcelain' % REPO)[1].strip() == '', REPO + ' is dirty'
 res = {'seed': seed, 'property': prop}
-env = dict(os.environ, PYTHONPATH='/repo')
-res['demo_clean_exit'] = sh('timeout 300 /venv/bin/python %s/demo.py' % seed, cwd='/repo', env=env)[0]
-rc, out = sh('git -C /repo apply %s/patch.diff' % os.path.abspath(seed))
+env = dict(os.environ, PYTHONPATH=REPO, VERIF_REPO=REPO)
+res['demo_clean_exit'] = sh('timeout 300 /venv/bin/python %s/demo.py' % seed, cwd=REPO, env=env)[0]
+rc, out = sh('git -C %s apply %s/patch.diff' % (REPO, os.path.abspath(seed)))
 if rc != 0:
   res['apply'] = 'FAILED: ' + out[-300:]
   print(json.dumps(res, indent=1))
   sys.exit(2)
 try:
-  res['demo_patched_exit'] = sh('timeout 300 /venv/bin/python %s/demo.py' % seed, cwd='/repo', env=env)[0]
+  res['demo_patched_exit'] = sh('timeout 300 /venv/bin/python %s/demo.py' % seed, cwd=REPO, env=env)[0]
   t = time.time()
-  rc, out = sh('./check %s --tier %s' % (prop, 'thorough' if thorough else 'quick'), cwd=VERIF)
+  rc, out = sh('./check %s --tier %s' % (prop, 'thorough' if thorough else 'quick'), cwd=VERIF, env=env)
   res['check_exit'] = rc
   res['check_wall_s'] = round(time.time() - t, 1)
   lines = [l for l in out.split('\n') if l.startswith(('VIOLATION', 'BROKEN', 'FAIL', 'OK ', 'INFRA'))]
@@ -40,12 +43,12 @@ try:
     except Exception as e:
       res['replays'].append({'file': r, 'error': str(e)})
 finally:
-  sh('git -C /repo checkout -- .')
-  sh('git -C /repo clean -fdq pyglove')
+  sh('git -C %s checkout -- .' % REPO)
+  sh('git -C %s clean -fdq pyglove' % REPO)
 # replays on the clean tree must pass
 res['replay_on_clean'] = []
 for r in res.get('replays', [])[:2]:
   if 'file' in r and r.get('kind') == 'failing-input':
-    rc, out = sh('./check %s --replay %s' % (prop, r['file']), cwd=VERIF)
+    rc, out = sh('./check %s --replay %s' % (prop, r['file']), cwd=VERIF, env=env)
     res['replay_on_clean'].append(rc)
 print(json.dumps(res, indent=1))
